@@ -432,3 +432,56 @@ def bool_call_guards(fn, call_pat, block, want=True, recv_pred=None):
     if not edges:
         return False
     return block not in fn.reachable([0], avoid_edges=edges)
+
+
+# ---- variant tables with constant propagation of booleans (A7a) ---------------------------------------------------
+
+def explore_variant(fn, scrutinee_pred, variant, max_states=20000):
+    """blocks reachable from entry when every discriminant switch whose scrutinee satisfies scrutinee_pred(fn, Slice) takes the edge of
+    `variant`, with path-sensitive constant propagation of bool/integer locals assigned constants (the shape `matches!` expands to).
+    Returns the set of reachable blocks."""
+    dsw = {}
+    for (b, pl, tm, other) in discr_switches(fn):
+        if scrutinee_pred(fn, backslice(fn, pl, "prov")):
+            dsw[b.idx] = (tm, other)
+    seen = set()
+    reach = set()
+    stack = [(0, frozenset())]
+    n = 0
+    while stack and n < max_states:
+        b, env = stack.pop()
+        if (b, env) in seen:
+            continue
+        seen.add((b, env))
+        n += 1
+        reach.add(b)
+        blk = fn.blocks[b]
+        e = dict(env)
+        for s in blk.stmts:
+            if s.k == "assign" and s.place.is_local():
+                if s.rv.k == "use" and s.rv.ops[0].is_const() and s.rv.ops[0].const_val() is not None:
+                    e[s.place.local] = s.rv.ops[0].const_val()
+                elif s.rv.k == "use" and s.rv.ops[0].place is not None and s.rv.ops[0].place.is_local() and s.rv.ops[0].place.local in e:
+                    e[s.place.local] = e[s.rv.ops[0].place.local]
+                elif s.rv.k == "un" and s.rv.op == "Not" and s.rv.ops[0].place is not None and s.rv.ops[0].place.is_local() and s.rv.ops[0].place.local in e:
+                    e[s.place.local] = 0 if e[s.rv.ops[0].place.local] else 1
+                else:
+                    e.pop(s.place.local, None)
+        t = blk.term
+        if t.k == "call" and t.dest.is_local():
+            e.pop(t.dest.local, None)
+        env2 = frozenset(e.items())
+        if t.k == "switch":
+            if b in dsw:
+                tm, other = dsw[b]
+                stack.append((tm.get(variant, other), env2))
+                continue
+            d = t.discr
+            if d.place is not None and d.place.is_local() and d.place.local in e:
+                v = e[d.place.local]
+                tgt = dict((vv, tt) for vv, tt in t.j["ts"]).get(v, t.j["else"])
+                stack.append((tgt, env2))
+                continue
+        for s2 in t.succs():
+            stack.append((s2, env2))
+    return reach
